@@ -11,6 +11,11 @@
    Evaluate methods: the receiver fields are parameters of the generated definition; the lemma
    substitutes what the model's constructor `k_xxx` pre-computes and is stated about the
    closure of the object `k_xxx` returns.
+   Constructors (the loop-free ones): the generated definition returns None where Go returns
+   nil / an error, and otherwise the pair (Evaluate, BoundingBox) of the struct it built; the
+   lemma `Xxx_ctor` says that this is the model's `k_xxx`, object for object (argument checks,
+   pre-computed fields, closure and bounding box).  Wrapped SDF arguments are assumed non-nil,
+   as in the model (`x == nil` is translated to `false`).
 
    Deviations of the hand model from the Go source found by this file (Shape.v is not edited
    here; see the `_deviation` / `_modulo` lemmas):
@@ -31,6 +36,17 @@ Ltac open_k H :=
          | (if ?c then None else _) = Some _ => destruct c; [discriminate H|]
          end;
   inversion H; subst; clear H.
+
+(* constructor equality: split on the argument checks (the same boolean terms on both sides),
+   then both sides are the same object up to conversion *)
+Ltac ctor_eq :=
+  cbn [orb andb];
+  repeat (try reflexivity;
+          match goal with
+          | |- context [if ?c then _ else _] =>
+              lazymatch c with false => fail | true => fail | _ => destruct c end
+          end);
+  reflexivity.
 
 Section GenEq.
   Context {O : Ops}.
@@ -91,6 +107,36 @@ Section GenEq.
   Lemma v3_DivScalar_modulo : (forall x k : T, x / k = x * (o1 O / k)) ->
     forall (a : V3) (k : T), v3_Vec_DivScalar a k = v3divs a k.
   Proof. intros Hd a k. unfold v3_Vec_DivScalar, v3_Vec_MulScalar, v3divs. rewrite <- !Hd. reflexivity. Qed.
+
+  Lemma v3_LTEZero_eq : forall a : V3, v3_Vec_LTEZero a = v3_lte_zero a. Proof. reflexivity. Qed.
+
+  (* ------------------------------------------------------------ sdf/box2.go, sdf/box3.go *)
+  Lemma NewBox2_eq : forall center size : V2, sdf_NewBox2 center size = newbox2 center size. Proof. reflexivity. Qed.
+  Lemma Box2_Extend_eq : forall a b : Box2 O, sdf_Box2_Extend a b = box2_extend a b. Proof. reflexivity. Qed.
+  Lemma Box2_Include_eq : forall (a : Box2 O) (v : V2), sdf_Box2_Include a v = box2_include a v. Proof. reflexivity. Qed.
+  Lemma Box2_Translate_eq : forall (a : Box2 O) (v : V2), sdf_Box2_Translate a v = box2_translate a v. Proof. reflexivity. Qed.
+  Lemma Box2_Size_eq : forall a : Box2 O, sdf_Box2_Size a = box2_size a. Proof. reflexivity. Qed.
+  Lemma Box2_Center_eq : forall a : Box2 O, sdf_Box2_Center a = box2_center a. Proof. reflexivity. Qed.
+  Lemma Box2_ScaleAboutCenter_eq : forall (a : Box2 O) (k : T), sdf_Box2_ScaleAboutCenter a k = box2_scale_about_center a k.
+  Proof. reflexivity. Qed.
+  Lemma Box2_Enlarge_eq : forall (a : Box2 O) (v : V2), sdf_Box2_Enlarge a v = box2_enlarge a v. Proof. reflexivity. Qed.
+  Lemma Box2_Contains_eq : forall (a : Box2 O) (v : V2), sdf_Box2_Contains a v = box2_contains a v. Proof. reflexivity. Qed.
+  Lemma Box2_Vertices_eq : forall a : Box2 O, sdf_Box2_Vertices a = box2_vertices a. Proof. reflexivity. Qed.
+  Lemma NewBox3_eq : forall center size : V3, sdf_NewBox3 center size = newbox3 center size. Proof. reflexivity. Qed.
+  Lemma Box3_Extend_eq : forall a b : Box3 O, sdf_Box3_Extend a b = box3_extend a b. Proof. reflexivity. Qed.
+  Lemma Box3_Include_eq : forall (a : Box3 O) (v : V3), sdf_Box3_Include a v = box3_include a v. Proof. reflexivity. Qed.
+  Lemma Box3_Translate_eq : forall (a : Box3 O) (v : V3), sdf_Box3_Translate a v = box3_translate a v. Proof. reflexivity. Qed.
+  Lemma Box3_Size_eq : forall a : Box3 O, sdf_Box3_Size a = box3_size a. Proof. reflexivity. Qed.
+  Lemma Box3_Center_eq : forall a : Box3 O, sdf_Box3_Center a = box3_center a. Proof. reflexivity. Qed.
+  Lemma Box3_ScaleAboutCenter_eq : forall (a : Box3 O) (k : T), sdf_Box3_ScaleAboutCenter a k = box3_scale_about_center a k.
+  Proof. reflexivity. Qed.
+  Lemma Box3_Enlarge_eq : forall (a : Box3 O) (v : V3), sdf_Box3_Enlarge a v = box3_enlarge a v. Proof. reflexivity. Qed.
+  Lemma Box3_Contains_eq : forall (a : Box3 O) (v : V3), sdf_Box3_Contains a v = box3_contains a v. Proof. reflexivity. Qed.
+  Lemma Box3_Vertices_eq : forall a : Box3 O, sdf_Box3_Vertices a = box3_vertices a. Proof. reflexivity. Qed.
+
+  (* ------------------------------------------------------------ sdf/matrix.go: MulBox *)
+  Lemma M33_MulBox_eq : forall (a : list T) (box : Box2 O), sdf_M33_MulBox a box = m33_mulbox a box. Proof. reflexivity. Qed.
+  Lemma M44_MulBox_eq : forall (a : list T) (box : Box3 O), sdf_M44_MulBox a box = m44_mulbox a box. Proof. reflexivity. Qed.
 
   (* ------------------------------------------------------------ sdf/utils.go *)
   Lemma Clamp_eq : forall x a b : T, sdf_Clamp x a b = clamp x a b. Proof. reflexivity. Qed.
@@ -293,6 +339,98 @@ Section GenEq.
   Lemma Shell3_eq : forall (s : Obj3 O) thickness o p, k_shell3 s thickness = Some o ->
     sdf_ShellSDF3_Evaluate (ev3 s) (k05 * thickness) p = ev3 o p.
   Proof. intros s thickness o p H. unfold k_shell3 in H. open_k H. reflexivity. Qed.
+  (* ------------------------------------------------------------ constructors, object for object *)
+  Definition obj2_of (x : (V2 -> T) * Box2 O) : Obj2 O := mkObj2 (fst x) (snd x).
+  Definition obj3_of (x : (V3 -> T) * Box3 O) : Obj3 O := mkObj3 (fst x) (snd x).
+
+  Lemma Circle2D_ctor : forall radius : T, option_map obj2_of (sdf_Circle2D radius) = k_circle radius.
+  Proof. intros. unfold sdf_Circle2D, k_circle. ctor_eq. Qed.
+  Lemma Box2D_ctor : forall (size : V2) (round : T), option_map obj2_of (sdf_Box2D size round) = k_box2 size round.
+  Proof. intros. unfold sdf_Box2D, k_box2. ctor_eq. Qed.
+  Lemma Line2D_ctor : forall l round : T, option_map obj2_of (sdf_Line2D l round) = k_line2 l round.
+  Proof. intros. unfold sdf_Line2D, k_line2. ctor_eq. Qed.
+  Lemma Offset2D_ctor : forall (s : Obj2 O) (offset : T),
+    option_map obj2_of (sdf_Offset2D (ev2 s) (bb2 s) offset) = k_offset2 s offset.
+  Proof. intros. unfold sdf_Offset2D, k_offset2. ctor_eq. Qed.
+  (* Intersect2D / Difference2D install math.Max; SetMax replaces it (the model's MaxK argument) *)
+  Lemma Intersect2D_ctor : forall s0 s1 : Obj2 O,
+    option_map obj2_of (sdf_Intersect2D (ev2 s0) (bb2 s0) (ev2 s1) (bb2 s1)) = k_intersect2 MaxDef s0 s1.
+  Proof. intros. unfold sdf_Intersect2D, k_intersect2. ctor_eq. Qed.
+  Lemma Difference2D_ctor : forall s0 s1 : Obj2 O,
+    option_map obj2_of (sdf_Difference2D (ev2 s0) (bb2 s0) (ev2 s1) (bb2 s1)) = k_difference2 MaxDef s0 s1.
+  Proof. intros. unfold sdf_Difference2D, k_difference2. ctor_eq. Qed.
+  Lemma Cut2D_ctor : forall (s : Obj2 O) (a v : V2),
+    option_map obj2_of (sdf_Cut2D (ev2 s) (bb2 s) a v) = k_cut2 s a v.
+  Proof. intros. unfold sdf_Cut2D, k_cut2. ctor_eq. Qed.
+  Lemma Transform2D_ctor : forall (s : Obj2 O) (m : list T),
+    option_map obj2_of (sdf_Transform2D (ev2 s) (bb2 s) m) = k_transform2 s m.
+  Proof. intros. unfold sdf_Transform2D, k_transform2. ctor_eq. Qed.
+  Lemma ScaleUniform2D_ctor : forall (s : Obj2 O) (k : T),
+    option_map obj2_of (sdf_ScaleUniform2D (ev2 s) (bb2 s) k) = k_scaleuniform2 s k.
+  Proof. intros. unfold sdf_ScaleUniform2D, k_scaleuniform2. ctor_eq. Qed.
+  Lemma Elongate2D_ctor : forall (s : Obj2 O) (h : V2),
+    option_map obj2_of (sdf_Elongate2D (ev2 s) (bb2 s) h) = k_elongate2 s h.
+  Proof. intros. unfold sdf_Elongate2D, k_elongate2. ctor_eq. Qed.
+
+  Lemma Sphere3D_ctor : forall radius : T, option_map obj3_of (sdf_Sphere3D radius) = k_sphere radius.
+  Proof. intros. unfold sdf_Sphere3D, k_sphere. ctor_eq. Qed.
+  Lemma Box3D_ctor : forall (size : V3) (round : T), option_map obj3_of (sdf_Box3D size round) = k_box3 size round.
+  Proof. intros. unfold sdf_Box3D, k_box3. rewrite v3_LTEZero_eq. ctor_eq. Qed.
+  Lemma Cylinder3D_ctor : forall height radius round : T,
+    option_map obj3_of (sdf_Cylinder3D height radius round) = k_cylinder height radius round.
+  Proof. intros. unfold sdf_Cylinder3D, k_cylinder. ctor_eq. Qed.
+  Lemma Capsule3D_ctor : forall height radius : T,
+    option_map obj3_of (sdf_Capsule3D height radius) = k_cylinder height radius radius.
+  Proof. intros. unfold sdf_Capsule3D. apply Cylinder3D_ctor. Qed.
+  Lemma Cone3D_ctor : forall height r0 r1 round : T,
+    option_map obj3_of (sdf_Cone3D height r0 r1 round) = k_cone height r0 r1 round.
+  Proof. intros. unfold sdf_Cone3D, k_cone. ctor_eq. Qed.
+  Lemma Extrude3D_ctor : forall (s : Obj2 O) (height : T),
+    option_map obj3_of (sdf_Extrude3D (ev2 s) (bb2 s) height) = k_extrude s height.
+  Proof. intros. unfold sdf_Extrude3D, k_extrude. ctor_eq. Qed.
+  Lemma ExtrudeRounded3D_ctor : forall (s : Obj2 O) (height round : T),
+    option_map obj3_of (sdf_ExtrudeRounded3D (ev2 s) (bb2 s) height round) = k_extruderounded s height round.
+  Proof. intros. unfold sdf_ExtrudeRounded3D, k_extruderounded. ctor_eq. Qed.
+  Lemma Transform3D_ctor : forall (s : Obj3 O) (m : list T),
+    option_map obj3_of (sdf_Transform3D (ev3 s) (bb3 s) m) = k_transform3 s m.
+  Proof. intros. unfold sdf_Transform3D, k_transform3. ctor_eq. Qed.
+  Lemma ScaleUniform3D_ctor : forall (s : Obj3 O) (k : T),
+    option_map obj3_of (sdf_ScaleUniform3D (ev3 s) (bb3 s) k) = k_scaleuniform3 s k.
+  Proof. intros. unfold sdf_ScaleUniform3D, k_scaleuniform3. ctor_eq. Qed.
+  Lemma Difference3D_ctor : forall s0 s1 : Obj3 O,
+    option_map obj3_of (sdf_Difference3D (ev3 s0) (bb3 s0) (ev3 s1) (bb3 s1)) = k_difference3 MaxDef s0 s1.
+  Proof. intros. unfold sdf_Difference3D, k_difference3. ctor_eq. Qed.
+  Lemma Intersect3D_ctor : forall s0 s1 : Obj3 O,
+    option_map obj3_of (sdf_Intersect3D (ev3 s0) (bb3 s0) (ev3 s1) (bb3 s1)) = k_intersect3 MaxDef s0 s1.
+  Proof. intros. unfold sdf_Intersect3D, k_intersect3. ctor_eq. Qed.
+  Lemma Cut3D_ctor : forall (s : Obj3 O) (a n : V3),
+    option_map obj3_of (sdf_Cut3D (ev3 s) (bb3 s) a n) = k_cut3 s a n.
+  Proof. intros. unfold sdf_Cut3D, k_cut3. ctor_eq. Qed.
+  Lemma Elongate3D_ctor : forall (s : Obj3 O) (h : V3),
+    option_map obj3_of (sdf_Elongate3D (ev3 s) (bb3 s) h) = k_elongate3 s h.
+  Proof. intros. unfold sdf_Elongate3D, k_elongate3. ctor_eq. Qed.
+  Lemma Offset3D_ctor : forall (s : Obj3 O) (offset : T),
+    option_map obj3_of (sdf_Offset3D (ev3 s) (bb3 s) offset) = k_offset3 s offset.
+  Proof. intros. unfold sdf_Offset3D, k_offset3. ctor_eq. Qed.
+  Lemma Shell3D_ctor : forall (s : Obj3 O) (thickness : T),
+    option_map obj3_of (sdf_Shell3D (ev3 s) (bb3 s) thickness) = k_shell3 s thickness.
+  Proof. intros. unfold sdf_Shell3D, k_shell3. ctor_eq. Qed.
+
+  (* the two constructors whose closures carry a deviation of the model (header) *)
+  Lemma ScaleExtrude3D_ctor_modulo : (forall x k : T, x / k = x * (o1 O / k)) ->
+    forall (s : Obj2 O) (height : T) (scale : V2),
+      option_map obj3_of (sdf_ScaleExtrude3D (ev2 s) (bb2 s) height scale) = k_scaleextrude s height scale.
+  Proof.
+    intros Hd s height scale. unfold sdf_ScaleExtrude3D, k_scaleextrude, sdf_ScaleExtrude, ex_scale.
+    rewrite (v2_DivScalar_modulo Hd). ctor_eq.
+  Qed.
+  Lemma Loft3D_ctor_modulo : forall (s0 s1 : Obj2 O) (height round : T),
+    ((height / two) - round =? o0 O) = false ->
+    option_map obj3_of (sdf_Loft3D (ev2 s0) (bb2 s0) (ev2 s1) (bb2 s1) height round) = k_loft s0 s1 height round.
+  Proof.
+    intros s0 s1 height round Hsh. unfold sdf_Loft3D, k_loft, sdf_LoftSDF3_Evaluate.
+    rewrite Hsh. ctor_eq.
+  Qed.
 End GenEq.
 
 (* ------------------------------------------------------------ the deviations are real *)
